@@ -202,7 +202,7 @@ def run_case(case: dict) -> CaseResult:
                 if b == "raise":
                     raise ValueError("pipeline failed")
                 if isinstance(b, list):  # ["delay", port]
-                    await asyncio.sleep(1 / 64)
+                    await asyncio.sleep(1 / 128)  # strictly inside every 'yield' step: never ties with an unsubscribe
                     return b[1]
                 return {"port": 4242, "none": None}.get(b, b if isinstance(b, int) else None)
 
